@@ -261,7 +261,9 @@ func cmdCheck(args []string) int {
 		timeout = v
 	}
 	work := filepath.Join(os.TempDir(), fmt.Sprintf("hopvc.%d", os.Getpid()))
-	defer os.RemoveAll(work)
+	if !keepSMT {
+		defer os.RemoveAll(work)
+	}
 	// discharge, all functions in parallel (bounded by solver slots)
 	slots := make(chan struct{}, 5)
 	for _, t := range tasks {
